@@ -347,7 +347,7 @@ def main_check(prop, tier, verif_seed=None, budget_s=None, workers=None, max_run
     by_sig = {}
     for r in results:
         if r['status'] == 'violation':
-            for v in r['violations'][:1]:
+            for v in r['violations']:
                 by_sig.setdefault(tuple(v['sig']), []).append(r)
     ev = summarise(prop, mod, tier, verif_seed, results, wall, level)
     known_hits = Counter()
